@@ -131,9 +131,18 @@ Definition holds_C04 (c : case) : bool :=
 Definition failing_classes (c : case) : list cls :=
   map ot_cls (filter (fun o => negb (holds_events (ot_events o))) (c_objs c)).
 
-(* no open known-finding class: D23 (MultiSetEdit gave up before its matching was computed), D24 (EditDistance
-   reported False on the call that completed its matrix) and D25 (IterativeTighteningSearch returned its best item's
-   flag) are repaired in the code; their replays stay in corpus/C04.jsonl *)
+(* ---------------------------------------------------------------- known-finding classes
+   D23 (MultiSetEdit gave up before its matching was computed), D24 (EditDistance reported False on the call that
+   completed its matrix) and D25 (IterativeTighteningSearch returned its best item's flag) are repaired in the code;
+   their replays stay in corpus/C04.jsonl.
+   D36 (open; only reachable with directly built MultiSetNodes that repeat an element, which no JSON file produces):
+   WeightedBipartiteMatcher keys its dictionaries by node, so repeated elements collapse; the MATCHER's own bounds
+   then widen / lose their final value once the matching is computed (and repeat_until_tightened may spin for ever:
+   those runs are cut by the wall-clock guard).  Class: the trace of some WeightedBipartiteMatcher object itself
+   violates a clause.  A case in which only other objects fail (e.g. a MultiSetEdit whose bounds do not contain its
+   final value while its matcher's trace is fine) is NOT in the class. *)
+Definition kf_matcher_fails (c : case) : bool :=
+  existsb (fun o => cls_eqb (ot_cls o) CMatcher && negb (holds_events (ot_events o))) (c_objs c).
 
 (* ---------------------------------------------------------------- machines and their contract *)
 Definition zr := (Z * Z)%type.                        (* finite range (lower, upper) *)
